@@ -557,6 +557,10 @@ class AttackGraph():
                         # file does, not the model's own value object
                         defense_status = float(
                             getattr(asset, attack_step_name))
+                        if defense_status == 0.0:
+                            # -0.0 is accepted by the model and equals the
+                            # default, but it would be written as "-0.0"
+                            defense_status = 0.0
                         logger.debug(
                             'Setting the defense status of %s to %s.',
                             node_name, defense_status
